@@ -7,6 +7,9 @@
 #
 #   selfcheck/sensitivity.sh [--no-tests] [--tier quick|thorough] [name-substring ...]
 #
+# A seeded change may name the property whose check is expected to catch it with "check_property" in
+# its meta.json when that differs from the property its author aimed at.
+#
 # Exit 0 iff every selected mutant was caught.
 
 set -u
@@ -49,7 +52,7 @@ caught=0; missed=0; broken=0
 printf "%-58s %-5s %-7s %-8s %s\n" "change" "prop" "tests" "check" "replay"
 for patch in "${PATCHES[@]}"; do
     case "$patch" in
-        */seeded/*) name="seeded/$(basename "$(dirname "$patch")")"; prop="$(python3 -c "import json,sys; print(json.load(open(sys.argv[1]))['property'])" "$(dirname "$patch")/meta.json" 2>/dev/null)" ;;
+        */seeded/*) name="seeded/$(basename "$(dirname "$patch")")"; prop="$(python3 -c "import json,sys; m=json.load(open(sys.argv[1])); print(m.get('check_property', m['property']))" "$(dirname "$patch")/meta.json" 2>/dev/null)" ;;
         *) name="$(basename "$patch" .patch)"; prop="$(grep -o 'property=C[0-9]*' "${patch%.patch}.meta" | head -1 | cut -d= -f2)" ;;
     esac
     git -C "$WT" checkout -q -- . && git -C "$WT" clean -qfd
